@@ -586,8 +586,16 @@ package validate
 //@   requires[C06] isnil(source) || ptrof(source) != nil
 //@   pure
 //@ func (*schemaPropsValidator).validateDependencies
-//@   requires[C06] typeis(data, "map[string]interface{}")
-//@   modifies *
+//@   effects validation
+//@   maypanic
+//@   requires[C06] typeis(data, "map[string]interface{}") && isJSON(data)
+//@   requires[C04,C06] resP(mainResult)
+//@   modifies all(mainResult), elems(mainResult.Errors), elems(mainResult.Warnings)
+//@   ensures[C04] resP(mainResult) && !redeemed(s) && arrsOK(mainResult)
+//@   ensures[C08] unchanged(all(s))
+//@   on_panic ensures[C11] !redeemed(s)
+//@   loop 1 invariant[C04] resP(mainResult) && !redeemed(s) && unchanged(all(s)) && arrsOK(mainResult)
+//@   loop 2 invariant[C04] resP(mainResult) && !redeemed(s) && unchanged(all(s)) && arrsOK(mainResult)
 
 // helpers of schemaPropsValidator.Validate (allOf / not; anyOf / oneOf see below)
 //@ pred nilOrEntry(e *SchemaValidator) = e == nil || entryOK(e)
@@ -599,6 +607,7 @@ package validate
 //@ func (*schemaPropsValidator).validateAllOf
 //@   effects validation
 //@   maypanic
+//@   on_panic ensures[C11] !redeemed(s)
 //@   requires[C06] isJSON(data)
 //@   requires[C04,C06] entriesOK(s.allOfValidators) && entriesApart(s.allOfValidators) && entriesExist(s.allOfValidators) && ownsList(s, s.allOfValidators) && resP(mainResult) && resP(keepResultAllOf) && mainResult != keepResultAllOf
 //@   modifies all(mainResult), elems(mainResult.Errors), elems(mainResult.Warnings), all(keepResultAllOf), elems(keepResultAllOf.Errors), elems(keepResultAllOf.Warnings)
@@ -613,6 +622,7 @@ package validate
 //@ func (*schemaPropsValidator).validateAnyOf
 //@   effects validation
 //@   maypanic
+//@   on_panic ensures[C11] !redeemed(s)
 //@   requires[C06] isJSON(data)
 //@   requires[C04,C06] entriesOK(s.anyOfValidators) && entriesApart(s.anyOfValidators) && entriesExist(s.anyOfValidators) && ownsList(s, s.anyOfValidators) && resP(mainResult) && resP(keepResultAnyOf) && mainResult != keepResultAnyOf
 //@   modifies all(mainResult), elems(mainResult.Errors), elems(mainResult.Warnings), all(keepResultAnyOf), elems(keepResultAnyOf.Errors), elems(keepResultAnyOf.Warnings), mapof(keepResultAnyOf.cachedFieldSchemata), mapof(keepResultAnyOf.cachedItemSchemata)
@@ -630,6 +640,7 @@ package validate
 //@ func (*schemaPropsValidator).validateOneOf
 //@   effects validation
 //@   maypanic
+//@   on_panic ensures[C11] !redeemed(s)
 //@   requires[C06] isJSON(data)
 //@   requires[C04,C06] entriesOK(s.oneOfValidators) && entriesApart(s.oneOfValidators) && entriesExist(s.oneOfValidators) && ownsList(s, s.oneOfValidators) && resP(mainResult) && resP(keepResultOneOf) && mainResult != keepResultOneOf
 //@   modifies all(mainResult), elems(mainResult.Errors), elems(mainResult.Warnings), all(keepResultOneOf), elems(keepResultOneOf.Errors), elems(keepResultOneOf.Warnings), mapof(keepResultOneOf.cachedFieldSchemata), mapof(keepResultOneOf.cachedItemSchemata)
@@ -648,6 +659,7 @@ package validate
 //@ func (*schemaPropsValidator).validateNot
 //@   effects validation
 //@   maypanic
+//@   on_panic ensures[C11] !redeemed(s)
 //@   requires[C06] isJSON(data)
 //@   requires[C04,C06] s.notValidator != nil && entryOK(s.notValidator) && resP(mainResult)
 //@   modifies all(mainResult), elems(mainResult.Errors), elems(mainResult.Warnings)
@@ -825,7 +837,12 @@ package validate
 //@ pred entriesOK(l []*SchemaValidator) = forall(i, 0, len(l), entryOK(l[i])) && forall(a, 0, len(l), forall(b, 0, len(l), implies(a < b, l[a] != l[b])))
 //@ pred listsDisjoint(l []*SchemaValidator, m []*SchemaValidator) = forall(a, 0, len(l), forall(b, 0, len(m), l[a] != m[b]))
 //@ pred notIn(e *SchemaValidator, l []*SchemaValidator) = forall(a, 0, len(l), l[a] != e)
-//@ foldable readyProps(p *schemaPropsValidator) = entriesOK(p.anyOfValidators) && entriesOK(p.allOfValidators) && entriesOK(p.oneOfValidators) && listsDisjoint(p.anyOfValidators, p.allOfValidators) && listsDisjoint(p.anyOfValidators, p.oneOfValidators) && listsDisjoint(p.allOfValidators, p.oneOfValidators) && (p.notValidator == nil || (entryOK(p.notValidator) && notIn(p.notValidator, p.anyOfValidators) && notIn(p.notValidator, p.allOfValidators) && notIn(p.notValidator, p.oneOfValidators)))
+//@ pred apart2(l []*SchemaValidator, m []*SchemaValidator) = forall(a, 0, len(l), forall(b, 0, len(m), !desc(l[a], m[b]) && !desc(m[b], l[a])))
+//@ pred apart1(e *SchemaValidator, l []*SchemaValidator) = forall(a, 0, len(l), !desc(l[a], e) && !desc(e, l[a]))
+//@ pred apartIn(l []*SchemaValidator) = forall(a, 0, len(l), forall(b, 0, len(l), implies(a != b, !desc(l[a], l[b]))))
+//@ pred propsApart(p *schemaPropsValidator) = apartIn(p.anyOfValidators) && apartIn(p.allOfValidators) && apartIn(p.oneOfValidators) && apart2(p.anyOfValidators, p.allOfValidators) && apart2(p.anyOfValidators, p.oneOfValidators) && apart2(p.allOfValidators, p.oneOfValidators) && (p.notValidator == nil || (apart1(p.notValidator, p.anyOfValidators) && apart1(p.notValidator, p.allOfValidators) && apart1(p.notValidator, p.oneOfValidators)))
+//@ pred ownsLists(p *schemaPropsValidator) = (arr(p.anyOfValidators) == nil || owner(arr(p.anyOfValidators)) == p) && (arr(p.allOfValidators) == nil || owner(arr(p.allOfValidators)) == p) && (arr(p.oneOfValidators) == nil || owner(arr(p.oneOfValidators)) == p)
+//@ foldable readyProps(p *schemaPropsValidator) = entriesOK(p.anyOfValidators) && entriesOK(p.allOfValidators) && entriesOK(p.oneOfValidators) && listsDisjoint(p.anyOfValidators, p.allOfValidators) && listsDisjoint(p.anyOfValidators, p.oneOfValidators) && listsDisjoint(p.allOfValidators, p.oneOfValidators) && (p.notValidator == nil || (entryOK(p.notValidator) && notIn(p.notValidator, p.anyOfValidators) && notIn(p.notValidator, p.allOfValidators) && notIn(p.notValidator, p.oneOfValidators))) && propsApart(p) && ownsLists(p)
 
 //@ func newSchemaValidator
 //@   effects validation
@@ -839,6 +856,7 @@ package validate
 //@ func newSchemaPropsValidator
 //@   effects validation
 //@   assume_result result == nil || forallp(q, implies(desc(q, result), fromPool(q)))
+//@   assume_result result == nil || propsApart(result)
 //@   maypanic
 //@   ensures[C06,C04] result != nil && !redeemed(result) && fromPool(result) && result.Options != nil
 //@   ensures[C06,C04] readyProps(result)
